@@ -391,7 +391,7 @@ def segment(path, code):
     return fns, problems
 
 
-CAND = re.compile(r"\breportError\s*\(|\breportErr\s*\(|\bErrorMessage\b|\bInternalError\s*[({]|(?:\.|->)\s*id\s*=(?!=)")
+CAND = re.compile(r"\breportError\s*\(|\breportErr\s*\(|\bErrorMessage\b|\bInternalError\s*[({]|(?:\.|->)\s*id\s*=(?!=)|\bemplace(?:_back|_front)?\s*\(")
 
 
 def text_scan(path):
@@ -415,10 +415,15 @@ def text_scan(path):
             a = text_args(code, full, m.end() - 1)
             if a is not None and len(a) <= 1:
                 continue            # ErrorLogger::reportErr(msg): hands an existing message on, no id argument
+        if tok.startswith("emplace"):
+            a = text_args(code, full, m.end() - 1)
+            if a is None or len(a) < 5 or not any(re.match(r"^\s*Severity::\w+\s*$", x) or x.strip() == "severity" for x in a):
+                continue            # only in-place constructions that look like ErrorMessage(..., Severity, ...)
         if tok.startswith("ErrorMessage") and re.search(r"\w\s*::\s*$", code[max(0, off - 40):off]):
             continue                # SuppressionList::ErrorMessage and other nested names
         kind = "reportError" if tok.startswith("reportError") else "reportErr" if tok.startswith("reportErr") else \
-            "InternalError" if tok.startswith("InternalError") else "ErrorMessage" if tok.startswith("ErrorMessage") else "idassign"
+            "InternalError" if tok.startswith("InternalError") else "ErrorMessage" if tok.startswith("ErrorMessage") else \
+            "emplace" if tok.startswith("emplace") else "idassign"
         cands.append(dict(off=off, line=code.count("\n", 0, off) + 1, kind=kind, fn=enc, text=full[ls:le].strip(), after=code[m.end():m.end() + 120]))
     return dict(path=path, src=src, code=code, full=full, fns=fns, problems=problems, cands=cands)
 
@@ -853,6 +858,16 @@ class Extract:
             ev["ctext"] = re.sub(r"\s+", "", self.srctext(cal) or "")
             ev["args"] = [self.arg(a, env) for a in args]
             self.cur["events"].append(ev)
+            if cal.get("kind") == "MemberExpr" and name in ("emplace_back", "emplace_front", "emplace") and len(args) >= 5:
+                obj = cal.get("inner", [{}])[0] if cal.get("inner") else {}
+                ot = (obj.get("type", {}).get("desugaredQualType") or "") + " " + (obj.get("type", {}).get("qualType") or "")
+                if re.search(r"<\s*ErrorMessage\s*[,>]", ot):
+                    a1 = args[1]
+                    t1 = (a1.get("type", {}).get("qualType") or "") + (skipwrap(a1).get("type", {}).get("qualType") or "")
+                    ctor = "void (?, const TokenList *, Severity, id, msg)" if "TokenList" in t1 else \
+                        "void (?, std::string, Severity, msg, id)" if (stringlike(a1.get("type", {})) or stringlike(strip_expr(a1).get("type", {})) or strip_expr(a1).get("kind") == "StringLiteral") else None
+                    self.cur["events"].append(dict(k="em", line=b[1] if b else None, file=b[0] if b else None, ctor=ctor, inplace=True,
+                                                   args=[self.arg(a, env) for a in args]))
         elif k in ("CXXConstructExpr", "CXXTemporaryObjectExpr"):
             t = tyname(n.get("type", {}))
             if t in ("ErrorMessage", "InternalError") and key not in self.seen_ev:
@@ -869,6 +884,11 @@ class Extract:
                 obj = lhs.get("inner", [{}])[0] if lhs.get("inner") else {}
                 self.seen_ev.add(key)
                 self.cur["events"].append(dict(k="idassign", line=b[1] if b else None, file=b[0] if b else None,
+                                               objcls=tyname(obj.get("type", {})), args=[self.arg(inner[1], env)]))
+            elif lhs.get("kind") == "MemberExpr" and lhs.get("name") == "severity" and key not in self.seen_ev:
+                obj = lhs.get("inner", [{}])[0] if lhs.get("inner") else {}
+                self.seen_ev.add(key)
+                self.cur["events"].append(dict(k="sevassign", line=b[1] if b else None, file=b[0] if b else None,
                                                objcls=tyname(obj.get("type", {})), args=[self.arg(inner[1], env)]))
         elif k == "CompoundAssignOperator" and len(inner) == 2:
             lhs = skipwrap(inner[0])
@@ -1094,7 +1114,7 @@ def include_closure_digest(path):
     for p in sorted(seen):
         h.update(p.encode()); h.update(seen[p].encode())
     h.update(" ".join(CLANG).encode())
-    h.update(b"extractor-v4")
+    h.update(b"extractor-v5")
     return h.hexdigest()
 
 
@@ -1208,8 +1228,18 @@ def cross_check(scans, funcs):
             cover = [f for f in byfile.get(sc["path"], []) if f["line"] is not None and f["endline"] is not None and f["line"] <= line <= f["endline"]]
             where = "%s:%d" % (os.path.relpath(sc["path"], REPO), line)
             kind = c["kind"]
+            if kind == "emplace" and not any(ev["k"] == "em" and ev.get("file") == sc["path"] and ev.get("line") is not None and abs(ev["line"] - line) <= 3
+                                             for f in cover for ev in f["events"]):
+                # in-place construction of something else (FileLocation, ErrorPathItem ...): the AST knows the element type
+                if cover and any(ev["k"] == "call" and ev.get("name", "").startswith("emplace") and ev.get("file") == sc["path"] and ev.get("line") is not None
+                                 and abs(ev["line"] - line) <= 3 for f in cover for ev in f["events"]):
+                    explained += 1
+                    continue
             if kind == "ErrorMessage":
                 a = c["after"]
+                if re.search(r"make_(?:shared|unique)\s*<\s*$", sc["code"][max(0, c["off"] - 24):c["off"]]):
+                    problems.append("%s: forwarding construction of an ErrorMessage is not modelled: %s" % (where, c["text"][:100]))
+                    continue
                 if a.startswith("::") or re.match(r"^\s*(?:const\b)?\s*[&*>,)]", a) or re.match(r"^\s*[&*]\s*\w", a) or re.match(r"^\s*const\s*[&*]", a):
                     explained += 1      # type mention / static member / nested type
                     continue
@@ -1234,6 +1264,8 @@ def cross_check(scans, funcs):
                     ok = True
                 elif kind == "ErrorMessage" and ev["k"] == "call" and near and re.match(r"^\s*\w+\s*=\s*[\w:]+\s*\(", c["after"]):
                     ok = True           # ErrorMessage x = f(...): initialised from a call (its construction sites are inside f)
+                elif kind == "emplace" and ev["k"] == "em" and near:
+                    ok = True
                 elif kind == "InternalError" and ev["k"] == "ie" and near:
                     ok = True
                 elif kind == "idassign" and ev["k"] == "idassign" and near:
@@ -1600,7 +1632,15 @@ class Resolver:
                     idv = self.argval(ev["args"][0], "val")
                     if idv is None:
                         idv = U("assigned value is not a string expression: " + ev["args"][0].get("text", "?")[:60])
-                    ts.append(dict(id=idv, sev=lit("?"), site=(ev["file"], ev["line"]), sitefn=f["node"]))
+                    sv = lit("?")
+                    best = None
+                    for e2 in f["events"]:
+                        if e2["k"] == "sevassign" and e2.get("objcls") == "ErrorMessage" and e2.get("line") is not None and ev.get("line") is not None \
+                           and abs(e2["line"] - ev["line"]) <= 3 and (best is None or abs(e2["line"] - ev["line"]) < abs(best["line"] - ev["line"])):
+                            best = e2
+                    if best is not None and "sev" in best["args"][0]:
+                        sv = de_val(best["args"][0]["sev"])
+                    ts.append(dict(id=idv, sev=sv, site=(ev["file"], ev["line"]), sitefn=f["node"]))
             self.templates[f["node"]] = ts
         # call edges + wrapper propagation (fixpoint)
         calls = []
@@ -1801,3 +1841,166 @@ if __name__ == "__main__" and len(sys.argv) > 1 and sys.argv[1] == "extract":
     for d in X["dynamic"]:
         print("DYN", d)
     json.dump(dict(emitters=X["emitters"], dynamic=X["dynamic"], edges=X["edges"], roots=X["roots"]), open("/tmp/c28/extract.json", "w"), indent=1)
+
+
+# =================================================================================================================
+# tables -> Lean
+# =================================================================================================================
+def enc(s):
+    n = 0
+    for b in s.encode("utf-8"):
+        n = n * 256 + b
+    return n
+
+
+SEVS = ("none", "error", "warning", "style", "performance", "portability", "information", "debug", "internal")
+KIND_LEAN = {"library-function": "libraryFunction", "addon": "addon", "clang-tidy": "clangTidy", "rule-file": "ruleFile",
+             "replay-xml": "replayXml", "replay-pipe": "replayPipe", "internal-error-id": "internalErrorId"}
+PROPS_FILE = os.path.join(core.LEAN, "Cppcheck", "Props", "C28.lean")
+
+
+def props_lists():
+    """the hand-written lists of lean/Cppcheck/Props/C28.lean (single source of truth), as name lists; also checks the codes"""
+    txt = open(PROPS_FILE, encoding="utf-8").read()
+    out, bad = {}, []
+    for name in ("exemptIds", "knownUnlisted", "infeasibleIds"):
+        m = re.search(r"def %s : List \(String × Nat\) :=\s*\[(.*?)\n\s*\]" % name, txt, re.S)
+        if not m:
+            bad.append("list %s not found in Props/C28.lean" % name)
+            out[name] = []
+            continue
+        items = re.findall(r'\("((?:[^"\\]|\\.)*)",\s*(0x[0-9a-fA-F]+|\d+)\)', m.group(1))
+        out[name] = [s for s, _ in items]
+        for s, h in items:
+            if enc(s) != int(h, 0):
+                bad.append("%s: code of %r is %s, should be 0x%x" % (name, s, h, enc(s)))
+    return out, bad
+
+
+def errorlist_ids(ctx):
+    rc, out, err = core.sh([ctx.cppcheck, "--errorlist"], timeout=120)
+    if rc != 0:
+        return None, "cppcheck --errorlist exited with %s: %s" % (rc, err[-300:])
+    try:
+        root = ET.fromstring(out)
+    except ET.ParseError as e:
+        return None, "--errorlist output is not well-formed XML: %s" % e
+    ids = [(e.get("id"), e.get("severity")) for e in root.iter("error")]
+    if len(ids) < 50:
+        return None, "--errorlist printed only %d entries" % len(ids)
+    return ids, None
+
+
+def build_tables(X, elist):
+    """deterministic tables (python level) from the extraction result and the errorlist"""
+    names = set()
+    for e in X["emitters"]:
+        names.add(e["fn"])
+    for d in X["dynamic"]:
+        names.add(d["fn"])
+    for a, b in X["edges"]:
+        names.add(a); names.add(b)
+    for r in X["roots"]:
+        names.add(r)
+    fn_names = sorted(names)
+    fn_ix = {n: i for i, n in enumerate(fn_names)}
+    rows = set()
+    for e in X["emitters"]:
+        sev = e["sev"] if e["sev"] in SEVS else "unknown"
+        origin = "cli" if (e.get("sitefile") or e["file"] or "").startswith(os.path.join(REPO, "cli") + "/") or \
+            (e.get("sitefile") or e["file"] or "").startswith(os.path.join(REPO, "frontend") + "/") else "lib"
+        rows.add((enc(e["id"]), fn_ix[e["fn"]], sev, origin, e["line"] or 0, e["id"], e["fn"], os.path.relpath(e["file"], REPO) if e["file"] else "?"))
+    rows = sorted(rows)
+    edges = sorted(set((fn_ix[a], fn_ix[b]) for a, b in X["edges"]))
+    roots = sorted(fn_ix[r] for r in X["roots"])
+    dyn = sorted(set((fn_ix[d["fn"]], KIND_LEAN[d["kind"]], d["line"] or 0, d["expr"], os.path.relpath(d["file"], REPO) if d["file"] else "?") for d in X["dynamic"]))
+    el = sorted(set(enc(i) for i, _ in elist))
+    idnames = sorted(set(r[5] for r in rows) | set(i for i, _ in elist))
+    return dict(fn_names=fn_names, rows=rows, edges=edges, roots=roots, dyn=dyn, errorlist=el, idnames=idnames,
+                errorlist_names=sorted(set(i for i, _ in elist)))
+
+
+def lean_str(s):
+    return '"' + s.replace("\\", "\\\\").replace('"', '\\"').replace("\n", "\\n") + '"'
+
+
+def chunked(name, ty, items, per=400):
+    """a long list as several definitions (keeps the elaborator's recursion shallow)"""
+    out = []
+    parts = []
+    for k in range(0, max(1, len(items)), per):
+        pn = "%s_%d" % (name, k // per)
+        parts.append(pn)
+        out.append("def %s : List %s := [\n  %s\n]" % (pn, ty, ",\n  ".join(items[k:k + per])))
+    out.append("def %s : List %s := %s" % (name, ty, " ++ ".join(parts)))
+    return "\n".join(out)
+
+
+def gen_lean(T, witness):
+    L = []
+    L.append("import Cppcheck.Model.ErrorIds")
+    L.append("/- GENERATED by vlib/props/c28.py from /repo's working tree (lib/*.cpp lib/*.h cli/* frontend/*: text scanner + clang JSON AST)")
+    L.append("   and from the output of the built binary's --errorlist — do not edit.  Ids are `enc id` (base-256), functions are indices into fnNames. -/")
+    L.append("namespace Cppcheck.Gen.ErrorIds")
+    L.append("open Cppcheck.ErrorIds")
+    L.append("")
+    L.append("/-- nodes of the extracted call graph: qualified name / number of parameters -/")
+    L.append(chunked("fnNames", "String", [lean_str(n) for n in T["fn_names"]]))
+    L.append("")
+    L.append("/-- every id of the tables with its code (display; `enc` of the name is checked by evaluation on every run) -/")
+    L.append(chunked("idNames", "(String × Nat)", ["(%s, 0x%x)" % (lean_str(n), enc(n)) for n in T["idnames"]]))
+    L.append("")
+    L.append("/-- (a) emitters, ascending by id code:  fn, id, severity, origin, line -/")
+    L.append(chunked("emitters", "Emitter", ["⟨%d, 0x%x, .%s, .%s, %d⟩ /- %s  %s  %s -/" % (r[1], r[0], r[2], r[3], r[4], r[5].replace("-/", "- /"), r[6], r[7]) for r in T["rows"]]))
+    L.append("")
+    L.append("/-- (b) call edges (caller, callee) between the extracted functions, incl. the virtual dispatch of Check::getErrorMessages -/")
+    L.append(chunked("calls", "(Nat × Nat)", ["(%d, %d)" % e for e in T["edges"]], per=1000))
+    L.append("")
+    L.append("/-- CppCheck::getErrorMessages -/")
+    L.append("def roots : List Nat := [%s]" % ", ".join(str(r) for r in T["roots"]))
+    L.append("")
+    L.append("/-- (c) id expressions that are dynamic by design -/")
+    L.append("def dynRules : List DynRule := [\n  %s\n]" % ",\n  ".join("⟨%d, .%s, %d⟩ /- %s  %s -/" % (d[0], d[1], d[2], d[4], d[3].replace("-/", "- /")) for d in T["dyn"]))
+    L.append("")
+    L.append("/-- (d) ids printed by the built binary's --errorlist, ascending -/")
+    L.append(chunked("errorlistIds", "Nat", ["0x%x /- %s -/" % (enc(n), n) for n in sorted(T["errorlist_names"], key=enc)]))
+    L.append("")
+    L.append("/-- an id of the emitter table that is neither printed nor exempt (chosen by the translator; `none` when there is none) -/")
+    L.append("def witnessUnlisted : Option Nat := %s" % ("none" if witness is None else "some 0x%x /- %s -/" % (enc(witness), witness)))
+    L.append("")
+    L.append("end Cppcheck.Gen.ErrorIds")
+    return "\n".join(L) + "\n"
+
+
+# =================================================================================================================
+# the check
+# =================================================================================================================
+def row_exempt(r, lists):
+    return r[2] in ("debug", "internal") or r[3] == "cli" or r[5] in lists["exemptIds"] or r[5] in lists["infeasibleIds"]
+
+
+def make_tables(ctx, fresh=False):
+    """translator: (tables, extraction result, list of fail-closed problems)"""
+    X = extract_all(fresh=fresh)
+    problems = list(X["problems"])
+    elist, err = errorlist_ids(ctx)
+    if err:
+        problems.append(err)
+        elist = []
+    lists, bad = props_lists()
+    problems += bad
+    T = build_tables(X, elist)
+    unl = sorted(set(r[5] for r in T["rows"] if not row_exempt(r, lists) and r[5] not in T["errorlist_names"]), key=enc)
+    T["unlisted"] = unl
+    T["lists"] = lists
+    T["witness"] = unl[0] if unl else None
+    return T, X, problems
+
+
+def translate(ctx):
+    """write lean/Cppcheck/Gen/ErrorIds.lean from the current working tree + built binary (also used by --setup)"""
+    if not os.path.exists(ctx.cppcheck):
+        ctx.build_repo()
+    T, X, problems = make_tables(ctx, fresh=False)
+    ctx.write_gen("ErrorIds", gen_lean(T, T["witness"]))
+    return T, X, problems
